@@ -23,7 +23,7 @@
 (*   u (a few amount cases, one per amount outcome x full expiry side).    *)
 (* All products stay below 2^31: out <= 1002, base <= 13, so               *)
 (* out + OutFee <= 2017 and |irate| * 2017 < 2^31 for |irate| <= 10^6;     *)
-(* the clamp sub-lattice has out + OutFee <= 214.                          *)
+(* the clamp sub-lattice has out + OutFee <= 213.                          *)
 (***************************************************************************)
 EXTENDS ForwardPolicy, TLC
 
@@ -80,7 +80,8 @@ LatticePick(P(_)) ==
   \/ \E o \in FeeOuts, b \in Bases, r \in Rates, ib \in IBases, ir \in IRates :
        \E i \in Ins(o, b, r, ib, ir) : PickAmt(P, i, o, b, r, ib, ir, 1, BW + 500)
   \* (b) inbound-rate clamp: |irate| around 10^7 and at the int32 limits, small amounts
-  \/ \E o \in {1, 9, 100}, b \in {0, 13}, r \in {0, 999999, 1000000}, ib \in {-7, 0, 7}, ir \in ClampRates :
+  \*     (a positive inbound base offsets the 1000 % discount, so that the fee boundary depends on the clamp)
+  \/ \E o \in {1, 9, 100}, b \in {0, 13}, r \in {0, 999999, 1000000}, ib \in {-7, 0, 7, 1500}, ir \in ClampRates :
        \E i \in Ins(o, b, r, ib, ir) : PickAmt(P, i, o, b, r, ib, ir, 1, BW + 500)
   \* (c) bounds lattice: min_htlc, max_htlc, bandwidth around each other, out around all three
   \/ \E o \in BoundOuts, mn \in Mins, mx \in Maxs, b \in {0, 13}, r \in {0, 2500}, ib \in {-7, 0}, ir \in {-500000, 0, 999} :
